@@ -317,6 +317,7 @@ func cmdCheck(args []string) int {
 	noTwin := fs.Bool("notwin", false, "skip twins")
 	jobs := fs.Int("j", 14, "parallel harnesses")
 	noEvidence := fs.Bool("noevidence", false, "do not write evidence")
+	noDiff := fs.Bool("nodiff", false, "skip differential validation against the native build")
 	fs.Parse(args)
 	traceOn = *trace
 	if t := os.Getenv("VERIF_TIER"); t != "" && *tier == "" {
@@ -383,6 +384,28 @@ func cmdCheck(args []string) int {
 	}
 	wg.Wait()
 
+	// differential validation of the VM against the native build (sequential harnesses)
+	validated := 0
+	var mismatches []string
+	{
+		var seqCfgs []*RunCfg
+		for _, o := range outs {
+			if o.rep != nil && o.rep.Cfg.Sequential && !o.rep.Cfg.Lazy {
+				seqCfgs = append(seqCfgs, o.rep.Cfg)
+			}
+		}
+		if len(seqCfgs) > 0 && !*noDiff {
+			n := 6
+			if *tier == "thorough" {
+				n = 30
+			}
+			var derr error
+			validated, mismatches, derr = diffValidate(P, seqCfgs, n, int64(seed)+1)
+			if derr != nil {
+				mismatches = append(mismatches, "differential validation failed to run: "+derr.Error())
+			}
+		}
+	}
 	var kf KnownFile
 	if b, err := os.ReadFile(filepath.Join(verifDir, "known_findings.json")); err == nil {
 		json.Unmarshal(b, &kf)
@@ -417,6 +440,16 @@ func cmdCheck(args []string) int {
 			}
 			path := filepath.Join(verifDir, "out", fmt.Sprintf("%s_%s_%s.json", *prop, o.def.Name, sanitize(v.Label)))
 			writeReplay(path, *prop, *tier, r.Cfg, v)
+			if r.Cfg.Sequential {
+				// a sequential harness must fail on the real build too, otherwise the engine is wrong
+				ok, how := nativeConfirm(P, r.Cfg, path, v.Label)
+				if !ok {
+					inconclusive = true
+					lines = append(lines, fmt.Sprintf("  INCONCLUSIVE harness=%s ENGINE-MISMATCH: %s found in the VM is not reproduced natively (%s); replay=%s", o.def.Name, v.Label, how, path))
+					continue
+				}
+				lines = append(lines, "  "+how)
+			}
 			nviol++
 			exit = 1
 			lines = append(lines, fmt.Sprintf("VIOLATION property=%s replay=%s", *prop, path))
@@ -440,6 +473,13 @@ func cmdCheck(args []string) int {
 			}
 		}
 	}
+	if validated > 0 || len(mismatches) > 0 {
+		lines = append(lines, fmt.Sprintf("differential validation: %d random concrete vectors agree between VM and native build, %d mismatches", validated, len(mismatches)))
+	}
+	for _, mm := range mismatches {
+		inconclusive = true
+		lines = append(lines, "  INCONCLUSIVE ENGINE-MISMATCH: "+mm)
+	}
 	for _, l := range lines {
 		fmt.Println(l)
 	}
@@ -447,7 +487,7 @@ func cmdCheck(args []string) int {
 		exit = 2
 	}
 	if !*noEvidence {
-		writeEvidence(cf, *prop, *tier, seed, outs, nviol, knownMatched, time.Since(t0).Seconds(), loadS, exit)
+		writeEvidence(cf, *prop, *tier, seed, outs, nviol, knownMatched, time.Since(t0).Seconds(), loadS, exit, validated)
 	}
 	fmt.Printf("property=%s tier=%s exit=%d wall=%.1fs (load %.1fs)\n", *prop, *tier, exit, time.Since(t0).Seconds(), loadS)
 	return exit
@@ -559,7 +599,7 @@ func cmdReplay(args []string) int {
 	return 2
 }
 
-func writeEvidence(cf *ConfigFile, prop, tier string, seed int, outs []*harnessOutcome, nviol int, known []string, wall, loadS float64, exit int) {
+func writeEvidence(cf *ConfigFile, prop, tier string, seed int, outs []*harnessOutcome, nviol int, known []string, wall, loadS float64, exit int, validated int) {
 	states, trans := 0, int64(0)
 	obl, dis := 0, 0
 	queries, unknown := 0, 0
@@ -630,7 +670,7 @@ func writeEvidence(cf *ConfigFile, prop, tier string, seed int, outs []*harnessO
 		samples = append(samples, map[string]interface{}{"note": "no path completed"})
 	}
 	cov := map[string]interface{}{
-		"states": states, "transitions": trans, "traces_validated_against_impl": 0, "samples": samples,
+		"states": states, "transitions": trans, "traces_validated_against_impl": validated, "samples": samples,
 		"paths": paths, "obligations": obl, "discharged": dis, "queries": queries, "solver_unknown": unknown, "solver_time_s": solverS,
 		"functions_encoded": fl, "functions_encoded_count": len(fl), "harnesses": hs, "reach_markers": reach, "stubs_used": stubs,
 		"known_findings_matched": known, "engine": "gosym (symbolic Go SSA VM, z3 " + z3Version() + ")", "load_s": loadS, "exit_code": exit,
